@@ -102,7 +102,10 @@ def h_block(params, vals, ctx):
     if unit == 2:
         require(b % 2 == 0)
     lo_max = params.get("small_max", 24)
-    require(n <= lo_max or n >= params.get("big_min", 65536))
+    if params.get("window"):
+        require(params["window"][0] <= n <= params["window"][1])
+    else:
+        require(n <= lo_max or n >= params.get("big_min", 65536))
     text = ".link {B}\n" + d + " {N}\n.byte 7\nL:\n"
     o = assemble([("a.mac", text)], vals, route=ctx.route)
     ctx.observe_outcome(o)
@@ -115,6 +118,13 @@ def h_block(params, vals, ctx):
     code = o.code
     if len(code) != unit * n + 1:
         return False
+    if params.get("window"):
+        # tens of thousands of bytes: the count is realised by now, so the fill is inspected outside the tracer
+        from ..common import notrace
+        with notrace():
+            raw = bytes(code)
+            fill_ok = raw.count(0) == len(raw) - 1 and raw[-1] == 7
+        return fill_ok and o.symbol("L") == b + unit * n + 1
     for i in range(len(code) - 1):
         if code[i] != 0:
             return False
@@ -221,6 +231,43 @@ def h_string(params, vals, ctx):
     if d == ".asciz":
         exp = exp + b"\x00"
     return bytes(o.code) == exp if not hasattr(o.code, "__ch_realize__") else o.code == exp
+
+
+def h_charlit_wide(params, vals, ctx):
+    """A character literal stored by a directive wider than the literal: the value is the unsigned little-endian reading of the
+    encoded bytes ('ab == a + 256*b), never sign-extended."""
+    cs = params["charset"]
+    ch = vals["S_1"]
+    require(len(ch) == 1)
+    cp = ord(ch)
+    require(0x21 <= cp < 0x100 or 0x400 <= cp < 0x460 or 0x2500 <= cp < 0x2520)
+    require(ch not in "\"\\/'")
+    if cs == "bk":
+        from ..common import concretize
+        ch = chr(concretize(cp))
+        vals = {**vals, "S_1": ch}
+    text = '.dword "a{S_1}\n.dword \'{S_1}\nW = "a{S_1}\n.word W / 400\n'
+    o = assemble([("a.mac", text)], vals, route=ctx.route, charset=cs)
+    ctx.observe_outcome(o)
+    ctx.reach(o.status in ("ok", "failed"))
+    try:
+        if cs == "bk":
+            from pdpy11 import bk_encoding
+            hits = [i for i, e in enumerate(bk_encoding.DECODING_TABLE) if ch in e]
+            if not hits:
+                raise UnicodeEncodeError("bk", ch, 0, 1, "not in table")
+            enc = bytes([hits[0]])
+        else:
+            enc = ch.encode(cs)
+    except UnicodeEncodeError:
+        return o.status == "failed" and "invalid-character" in o.error_ids
+    if len(enc) != 1:
+        return True   # multi-byte encodings of one character: the two-character literal is a different matter (not asserted here)
+    if o.status != "ok" or o.errors:
+        return False
+    c = enc[0]
+    want = bytes([0, 0, 97, c, 0, 0, c, 0]) + bytes([(97 + 256 * c) // 256 % 256, (97 + 256 * c) // 65536])
+    return bytes(o.code) == want if not hasattr(o.code, "__ch_realize__") else o.code == want
 
 
 def h_rawbyte(params, vals, ctx):
@@ -392,6 +439,9 @@ def obligations(tier, seed):
         obs.append(Ob(oid=f"block/{d}", harness=HB, params={"dir": d, "small_max": 24 if tier == "thorough" else 12},
                       vars={"N": "int", "B": "int"}, timeout=300, per_path=60,
                       pre="N <= 24 or N >= 65536 (all such integers)"))
+        for nm, win in (("half-range", [32767, 32769]), ("quarter-range", [16383, 16385]), ("top-of-range", [65534, 65536])):
+            obs.append(Ob(oid=f"block/{d}/{nm}", harness=HB, params={"dir": d, "window": win}, vars={"N": "int", "B": "int"}, timeout=600, per_path=200,
+                          pre=f"N in {win} (realised)"))
         if tier == "thorough":
             obs.append(Ob(oid=f"block/{d}/top", harness=HB, params={"dir": d, "small_max": -1, "big_min": 65530},
                           vars={"N": "int", "B": "int"}, timeout=900, per_path=200, pre="N < 0 or N >= 65530"))
@@ -416,6 +466,9 @@ def obligations(tier, seed):
     obs.append(Ob(oid="string/utf-8/.ascii/2sym", harness=HS,
                   params={"charset": "utf-8", "dir": ".ascii", "nsym": 2, "windows": [(0x20, 0x30), (0x7C, 0x84), (0x7FC, 0x804)]},
                   vars={"S_1": "str", "S_2": "str"}, timeout=900, pre="two symbolic characters around the UTF-8 length boundaries"))
+    for cs in ("koi8-r", "bk", "latin-1", "cp866"):
+        obs.append(Ob(oid=f"charlit-wide/{cs}", harness="pdpverif.props.c06:h_charlit_wide", params={"charset": cs}, vars={"S_1": "str"}, timeout=900, per_path=60,
+                      note='.dword "a? / .dword \'? / W = "a? / .word W / 400'))
     for d in (".ascii", ".asciz"):
         obs.append(Ob(oid=f"rawbyte/{d}", harness=HR, params={"dir": d}, vars={"V": "int"}, timeout=120, pre="every integer V"))
         obs.append(Ob(oid=f"rawbyte/{d}/utf-8-symbolic-lead", harness=HR, params={"dir": d, "charset": "utf-8", "symlead": True},
